@@ -32,6 +32,7 @@ Proof.
     + reflexivity.
     + rewrite default_sname_set_next. apply sec_set_next.
   - apply sec_set_next.
+  - destruct only_h1; [apply sec_set_next | reflexivity].
 Qed.
 
 Lemma tls_view_explicit s only_h1 host o :
@@ -91,18 +92,38 @@ Qed.
 
 (* the state a connection-path request leaves: unchanged, an h2 connection pooled (by the http2 transport's own
    dial, or by the hand-off, which also leaves the alt entry in the idle list), or an idle HTTP/1 connection *)
-Lemma rt_conn_client e c :
-  snd (rt_conn e c) = c \/ snd (rt_conn e c) = with_t2 true c \/
-  snd (rt_conn e c) = with_alti true (with_t2 true c) \/
-  snd (rt_conn e c) = with_idle (c_idle c) true c \/ snd (rt_conn e c) = with_idle true (c_idle1 c) c.
+Definition conn_shape (c r : client) : Prop :=
+  r = c \/ r = with_t2 true c \/ r = with_alti true (with_t2 true c) \/
+  r = with_idle (c_idle c) true c \/ r = with_idle true (c_idle1 c) c.
+
+Lemma rt_conn_direct_client e c : conn_shape c (snd (rt_conn_direct e c)).
 Proof.
-  unfold rt_conn.
+  unfold conn_shape, rt_conn_direct.
   destruct (negb match c_force c with FH1 => true | _ => false end && e_https e && c_alti c).
   { destruct (c_t2 c); [auto|]. destruct (rt_h2_dial_client e c) as [H|H]; rewrite H; auto. }
   repeat match goal with
          | |- context [if ?b then _ else _] => destruct b
          | |- context [match ?x with _ => _ end] => destruct x
          end; cbn [snd]; auto 6.
+Qed.
+
+Lemma rt_conn_proxy_client px e c : conn_shape c (snd (rt_conn_proxy px e c)).
+Proof.
+  unfold conn_shape, rt_conn_proxy.
+  destruct (negb match c_force c with FH1 => true | _ => false end && c_alti c).
+  { destruct (c_t2 c); [auto|]. destruct (rt_h2_dial_client e c) as [H|H]; rewrite H; auto. }
+  repeat match goal with
+         | |- context [if ?b then _ else _] => destruct b
+         | |- context [match ?x with _ => _ end] => destruct x
+         end; cbn [snd]; auto 6.
+Qed.
+
+Lemma rt_conn_client e c :
+  snd (rt_conn e c) = c \/ snd (rt_conn e c) = with_t2 true c \/
+  snd (rt_conn e c) = with_alti true (with_t2 true c) \/
+  snd (rt_conn e c) = with_idle (c_idle c) true c \/ snd (rt_conn e c) = with_idle true (c_idle1 c) c.
+Proof.
+  unfold rt_conn. destruct (route e c); [apply rt_conn_proxy_client | apply rt_conn_direct_client].
 Qed.
 
 Lemma rt_h2_dial_tls e c : c_tls (snd (rt_h2_dial e c)) = c_tls c.
@@ -161,8 +182,8 @@ Proof.
     destruct (round_trip_gen g e c) as [[o ds] c1]; cbn [snd];
     destruct o as [[| |]| |]; try (right; left; reflexivity);
     try (right; right; right; reflexivity);
-    (destruct ds as [|d ds]; [right; right; left; reflexivity|]);
-    (destruct (d_stack d); [destruct (own_h2_conn e c1); right; left; reflexivity | |]; right; right; left; reflexivity).
+    (destruct (last_stack ds) as [[| | |]|]; try (right; right; left; reflexivity);
+     destruct (own_h2_conn e c1); right; left; reflexivity).
 Qed.
 
 Lemma clear_idle_tls c : c_tls (clear_idle c) = c_tls c.
@@ -337,9 +358,9 @@ Proof.
   - one_dial. apply D; [intros v Hv; discriminate|]. intros Hc. inversion Hc. reflexivity.
 Qed.
 
-Lemma rt_conn_sound e c : req_sound e c (rt_conn e c).
+Lemma rt_conn_sound e c : route e c = None -> req_sound e c (rt_conn e c).
 Proof.
-  unfold rt_conn, req_sound.
+  intros RT. unfold rt_conn. rewrite RT. unfold rt_conn_direct, req_sound.
   set (oh := match c_force c with FH1 => true | _ => false end).
   destruct (negb oh && e_https e && c_alti c).
   { destruct (c_t2 c); [constructor | exact (rt_h2_dial_sound e c)]. }
@@ -363,22 +384,22 @@ Proof.
   - apply rt_h3_sound.
 Qed.
 
-Lemma round_trip_sound g e c : req_sound e c (round_trip_gen g e c).
+Lemma round_trip_sound g e c : route e c = None -> req_sound e c (round_trip_gen g e c).
 Proof.
-  unfold round_trip_gen.
+  intros RT. pose proof (rt_conn_sound e c RT) as rt_conn_sound'. unfold round_trip_gen.
   destruct (if g && negb match c_force c with FNone => true | _ => false end then None else check_altsvc e c) eqn:A.
   - destruct (g && negb match c_force c with FNone => true | _ => false end); [discriminate|].
     eapply check_altsvc_sound; eauto.
   - destruct (c_force c).
     + destruct (e_https e && negb false).
       * destruct (c_t2 c); [constructor|].
-        destruct (c_h3 c); [|apply rt_conn_sound].
-        destruct (rt_h3 true e c) eqn:E; [eapply rt_h3_sound; eauto | apply rt_conn_sound].
-      * apply rt_conn_sound.
-    + destruct (e_https e && negb true); [|apply rt_conn_sound].
+        destruct (c_h3 c); [|exact rt_conn_sound'].
+        destruct (rt_h3 true e c) eqn:E; [eapply rt_h3_sound; eauto | exact rt_conn_sound'].
+      * exact rt_conn_sound'.
+    + destruct (e_https e && negb true); [|exact rt_conn_sound'].
       destruct (c_t2 c); [constructor|].
-      destruct (c_h3 c); [|apply rt_conn_sound].
-      destruct (rt_h3 true e c) eqn:E; [eapply rt_h3_sound; eauto | apply rt_conn_sound].
+      destruct (c_h3 c); [|exact rt_conn_sound'].
+      destruct (rt_h3 true e c) eqn:E; [eapply rt_h3_sound; eauto | exact rt_conn_sound'].
     + apply rt_h2_dial_sound.
     + destruct (rt_h3 false e c) eqn:E; [eapply rt_h3_sound; eauto|]. constructor.
 Qed.
@@ -390,20 +411,20 @@ Proof.
     (destruct (c_h3 c' && s_altsvc (e_srv e)); [destruct (c_alt c')|]; intros H; exact H).
 Qed.
 
-Lemma do_req_sound g e c : req_sound e c (do_req_gen g e c).
-Proof. unfold do_req_gen. apply after_response_sound, round_trip_sound. Qed.
+Lemma do_req_sound g e c : route e c = None -> req_sound e c (do_req_gen g e c).
+Proof. intros RT. unfold do_req_gen. apply after_response_sound, round_trip_sound, RT. Qed.
 
 (* without caller-supplied TLS every handshake, TCP or QUIC, is governed by the client's settings *)
 Lemma settings_for_client e c q : user_tls c = None -> settings_for e c q = effective (e_host e) (c_tls c).
 Proof. intros U. unfold settings_for, tcp_settings. rewrite U. destruct q; reflexivity. Qed.
 
 Lemma do_req_sound_client g e c :
-  user_tls c = None ->
+  route e c = None -> user_tls c = None ->
   let '(o, ds, _) := do_req_gen g e c in
   Forall (fun d => d_sni d = t_sname (effective (e_host e) (c_tls c))) ds /\
   (ds <> [] -> (forall v, o = Use v -> acceptable e c = true) /\ (o = Fail ECert -> acceptable e c = false)).
 Proof.
-  intros U. pose proof (do_req_sound g e c) as S. unfold req_sound in S.
+  intros RT U. pose proof (do_req_sound g e c RT) as S. unfold req_sound in S.
   destruct (do_req_gen g e c) as [[o ds] c']. split.
   - eapply Forall_impl; [|exact S]. intros d [H _]. rewrite settings_for_client in H by exact U. exact H.
   - intros N. destruct ds as [|d r]; [contradiction|]. inversion S as [|? ? [_ [A B]] _]. subst.
@@ -508,8 +529,8 @@ Qed.
 
 (* the connection path: HTTP/1.1; HTTP/2 only when not restricted to h1 and the server selected h2 (now, or when
    the cached connection was made); clear text only through a plain DialTLSContext *)
-Lemma rt_conn_outcome e c :
-  match outcome_of (rt_conn e c) with
+Lemma rt_conn_direct_outcome e c :
+  match outcome_of (rt_conn_direct e c) with
   | Use V1 => True
   | Use V2 => c_force c <> FH1 /\ e_https e = true /\
               (mem_bytes alpn_h2 (s_alpn (e_srv e)) = true \/ c_t2 c = true)
@@ -518,7 +539,7 @@ Lemma rt_conn_outcome e c :
   | Fail _ => e_https e = true
   end.
 Proof.
-  unfold rt_conn.
+  unfold rt_conn_direct.
   set (oh := match c_force c with FH1 => true | _ => false end).
   assert (NF : oh = false -> c_force c <> FH1) by (subst oh; destruct (c_force c); congruence).
   destruct (negb oh && e_https e && c_alti c) eqn:AL.
@@ -537,6 +558,56 @@ Proof.
   destruct oh eqn:O; cbn [fst]; [reflexivity|].
   split; [auto|]. split; [reflexivity|]. left.
   apply opt_bytes_eqb_some in Q. subst p. eapply handshake_ok_mem; eauto.
+Qed.
+
+Lemma route_https e c px : route e c = Some px -> e_https e = true.
+Proof. unfold route. destruct (c_route c); cbn; [|discriminate]. destruct (e_https e); [reflexivity | discriminate]. Qed.
+
+Lemma rt_conn_proxy_outcome px e c :
+  e_https e = true ->
+  match outcome_of (rt_conn_proxy px e c) with
+  | Use V1 => True
+  | Use V2 => c_force c <> FH1 /\ e_https e = true /\
+              (mem_bytes alpn_h2 (s_alpn (e_srv e)) = true \/ c_t2 c = true)
+  | Use V3 => False
+  | Cleartext => c_plain_dialtls c = true /\ e_https e = true
+  | Fail _ => e_https e = true
+  end.
+Proof.
+  intros Hs. unfold rt_conn_proxy.
+  set (oh := match c_force c with FH1 => true | _ => false end).
+  assert (NF : oh = false -> c_force c <> FH1) by (subst oh; destruct (c_force c); congruence).
+  destruct (negb oh && c_alti c) eqn:AL.
+  { apply andb_prop in AL. destruct AL as [O _].
+    assert (O' : oh = false) by (destruct oh; [discriminate | reflexivity]).
+    destruct (c_t2 c) eqn:T; [cbn; auto|].
+    pose proof (rt_h2_dial_v2 e c) as V. pose proof (rt_h2_dial_outcome e c) as [X|[er X]]; rewrite X.
+    - specialize (V X). rewrite T, Hs in V. destruct V as [V|V]; [discriminate|]. auto.
+    - exact Hs. }
+  unfold outcome_of.
+  destruct (if oh then c_idle1 c else c_idle c); [exact I|].
+  match goal with |- context [match (if p_tls px then ?a else ?b) with _ => _ end] => destruct (if p_tls px then a else b) as [pp|per] end;
+    [|exact Hs].
+  match goal with |- context [handshake (s_alpn (e_srv e)) ?cfg (e_srv e)] =>
+    destruct (handshake (s_alpn (e_srv e)) cfg (e_srv e)) as [p|er] eqn:H end; cbn [fst]; [|exact Hs].
+  destruct (opt_bytes_eqb p (Some alpn_h2)) eqn:Q; [|exact I].
+  destruct oh eqn:O; cbn [fst]; [exact Hs|].
+  split; [auto|]. split; [exact Hs|]. left.
+  apply opt_bytes_eqb_some in Q. subst p. eapply handshake_ok_mem; eauto.
+Qed.
+
+Lemma rt_conn_outcome e c :
+  match outcome_of (rt_conn e c) with
+  | Use V1 => True
+  | Use V2 => c_force c <> FH1 /\ e_https e = true /\
+              (mem_bytes alpn_h2 (s_alpn (e_srv e)) = true \/ c_t2 c = true)
+  | Use V3 => False
+  | Cleartext => c_plain_dialtls c = true /\ e_https e = true
+  | Fail _ => e_https e = true
+  end.
+Proof.
+  unfold rt_conn. destruct (route e c) as [px|] eqn:RT;
+    [apply rt_conn_proxy_outcome; eapply route_https; eauto | apply rt_conn_direct_outcome].
 Qed.
 
 (* a forced version is used or the request fails (clear text only through a plain DialTLSContext) *)
@@ -646,10 +717,10 @@ Qed.
 Lemma rt_conn_t3 e c : c_t3 (snd (rt_conn e c)) = c_t3 c.
 Proof. destruct (rt_conn_client e c) as [H|[H|[H|[H|H]]]]; rewrite H; reflexivity. Qed.
 
-Lemma rt_conn_t2 e c :
-  c_t2 (snd (rt_conn e c)) = c_t2 c \/ (outcome_of (rt_conn e c) = Use V2 /\ c_t2 (snd (rt_conn e c)) = true).
+Lemma rt_conn_direct_t2 e c :
+  c_t2 (snd (rt_conn_direct e c)) = c_t2 c \/ (outcome_of (rt_conn_direct e c) = Use V2 /\ c_t2 (snd (rt_conn_direct e c)) = true).
 Proof.
-  unfold rt_conn.
+  unfold rt_conn_direct.
   destruct (negb match c_force c with FH1 => true | _ => false end && e_https e && c_alti c).
   { destruct (c_t2 c) eqn:T; [left; cbn; auto|].
     pose proof (rt_h2_dial_outcome e c) as [X|[er X]].
@@ -667,6 +738,32 @@ Proof.
          | |- context [match ?x with _ => _ end] => destruct x
          end; cbn; auto.
 Qed.
+
+Lemma rt_conn_proxy_t2 px e c :
+  c_t2 (snd (rt_conn_proxy px e c)) = c_t2 c \/ (outcome_of (rt_conn_proxy px e c) = Use V2 /\ c_t2 (snd (rt_conn_proxy px e c)) = true).
+Proof.
+  unfold rt_conn_proxy.
+  destruct (negb match c_force c with FH1 => true | _ => false end && c_alti c).
+  { destruct (c_t2 c) eqn:T; [left; cbn; auto|].
+    pose proof (rt_h2_dial_outcome e c) as [X|[er X]].
+    - destruct (rt_h2_dial_client e c) as [H|H]; rewrite H; [left; exact T | right; split; [exact X | reflexivity]].
+    - assert (K : snd (rt_h2_dial e c) = c).
+      { revert X. unfold rt_h2_dial, outcome_of.
+        repeat match goal with
+               | |- context [if ?b then _ else _] => destruct b
+               | |- context [match ?x with _ => _ end] => destruct x
+               end; cbn; intros X; try discriminate; reflexivity. }
+      left. rewrite K. exact T. }
+  unfold outcome_of.
+  repeat match goal with
+         | |- context [if ?b then _ else _] => destruct b
+         | |- context [match ?x with _ => _ end] => destruct x
+         end; cbn; auto.
+Qed.
+
+Lemma rt_conn_t2 e c :
+  c_t2 (snd (rt_conn e c)) = c_t2 c \/ (outcome_of (rt_conn e c) = Use V2 /\ c_t2 (snd (rt_conn e c)) = true).
+Proof. unfold rt_conn. destruct (route e c); [apply rt_conn_proxy_t2 | apply rt_conn_direct_t2]. Qed.
 
 Lemma rt_conn_inv e c : inv3 e c -> inv2 e c -> inv3 e (snd (rt_conn e c)) /\ inv2 e (snd (rt_conn e c)).
 Proof.
@@ -866,7 +963,7 @@ Proof.
   assert (H3 : forall oc r, rt_h3 oc e c = Some r -> exists er, outcome_of r = Fail er).
   { intros oc r. unfold rt_h3. rewrite Hs. cbn. intros H; inversion H. eexists; reflexivity. }
   assert (HC : outcome_of (rt_conn e c) = Use V1).
-  { unfold rt_conn, outcome_of. rewrite Hs. rewrite andb_false_r. cbn [negb andb].
+  { unfold rt_conn, route. rewrite Hs, andb_false_r. unfold rt_conn_direct, outcome_of. rewrite Hs, andb_false_r. cbn [negb andb].
     destruct (if match c_force c with FH1 => true | _ => false end then c_idle1 c else c_idle c); reflexivity. }
   destruct (if true && negb match c_force c with FNone => true | _ => false end then None else check_altsvc e c) as [r|] eqn:A.
   - destruct (true && negb match c_force c with FNone => true | _ => false end); [discriminate|].
@@ -906,7 +1003,7 @@ Qed.
 (* ---------- the pinned dispatch (checkAltSvc before the forced-version switch) ---------- *)
 Definition local_srv : server :=
   mkSrv [alpn_h2; alpn_h1] true true false 1%N [bs "localhost"] None.
-Definition local_env : env := mkEnv true (bs "localhost") local_srv.
+Definition local_env : env := mkEnv true (bs "localhost") local_srv None.
 
 Lemma forced_pinned_refuted :
   exists ops, fst (run_pinned local_env new_client ops) =
@@ -1117,10 +1214,10 @@ Proof.
 Qed.
 
 Lemma rt_conn_dials e c :
-  e_https e = true -> c_plain_dialtls c = false -> c_idle c = false -> c_idle1 c = false -> c_t2 c = false ->
+  route e c = None -> e_https e = true -> c_plain_dialtls c = false -> c_idle c = false -> c_idle1 c = false -> c_t2 c = false ->
   dials_or_fails (rt_conn e c).
 Proof.
-  intros Hs Hp Hi Hi1 H2. unfold rt_conn.
+  intros RT Hs Hp Hi Hi1 H2. unfold rt_conn. rewrite RT. unfold rt_conn_direct.
   set (oh := match c_force c with FH1 => true | _ => false end).
   destruct (negb oh && e_https e && c_alti c).
   { rewrite H2. apply rt_h2_dial_dials; assumption. }
@@ -1143,9 +1240,9 @@ Proof.
 Qed.
 
 Lemma round_trip_dials g e c :
-  e_https e = true -> c_plain_dialtls c = false -> no_conns c -> dials_or_fails (round_trip_gen g e c).
+  route e c = None -> e_https e = true -> c_plain_dialtls c = false -> no_conns c -> dials_or_fails (round_trip_gen g e c).
 Proof.
-  intros Hs Hp (Hi & Hi1 & H2 & H3). unfold round_trip_gen.
+  intros RT Hs Hp (Hi & Hi1 & H2 & H3). unfold round_trip_gen.
   destruct (if g && negb match c_force c with FNone => true | _ => false end then None else check_altsvc e c) eqn:A.
   - destruct (g && negb match c_force c with FNone => true | _ => false end); [discriminate|].
     eapply check_altsvc_dials; eauto.
@@ -1169,13 +1266,13 @@ Qed.
    request that has no connection to reuse is refused when the origin is unacceptable under the client's
    settings, and is never refused for its certificate when the origin is acceptable *)
 Lemma new_connection_decided_by_settings e c :
-  e_https e = true -> c_plain_dialtls c = false -> user_tls c = None -> no_conns c ->
+  route e c = None -> e_https e = true -> c_plain_dialtls c = false -> user_tls c = None -> no_conns c ->
   (acceptable e c = false -> exists er, outcome_of (do_req e c) = Fail er) /\
   (acceptable e c = true -> outcome_of (do_req e c) <> Fail ECert).
 Proof.
-  intros Hs Hp Hu Hn.
-  pose proof (do_req_sound_client altsvc_only_unforced e c Hu) as S.
-  pose proof (after_response_dials e _ (round_trip_dials altsvc_only_unforced e c Hs Hp Hn)) as D.
+  intros RT Hs Hp Hu Hn.
+  pose proof (do_req_sound_client altsvc_only_unforced e c RT Hu) as S.
+  pose proof (after_response_dials e _ (round_trip_dials altsvc_only_unforced e c RT Hs Hp Hn)) as D.
   unfold do_req. fold (do_req_gen altsvc_only_unforced e c) in D.
   unfold dials_or_fails in D.
   destruct (do_req_gen altsvc_only_unforced e c) as [[o ds] c']. unfold outcome_of. cbn [fst].
@@ -1189,17 +1286,17 @@ Qed.
 
 (* all three forced versions agree: same client settings, same origin, no connection to reuse *)
 Lemma forced_versions_agree e c f :
-  e_https e = true -> c_plain_dialtls c = false -> user_tls c = None -> no_conns c ->
+  route e c = None -> e_https e = true -> c_plain_dialtls c = false -> user_tls c = None -> no_conns c ->
   (acceptable e c = false -> exists er, outcome_of (do_req e (with_force f c)) = Fail er) /\
   (acceptable e c = true -> outcome_of (do_req e (with_force f c)) <> Fail ECert).
 Proof.
-  intros Hs Hp Hu Hn. apply (new_connection_decided_by_settings e (with_force f c)); assumption.
+  intros RT Hs Hp Hu Hn. apply (new_connection_decided_by_settings e (with_force f c)); assumption.
 Qed.
 
 (* with caller-supplied TLS (SetDialTLS / SetTLSHandshake) the same holds with the caller's configuration in
    the place of the client's for the TCP versions, HTTP/3 staying under the client's settings *)
 Lemma user_tls_governs_tcp_only e c t :
-  user_tls c = Some t ->
+  route e c = None -> user_tls c = Some t ->
   let '(o, ds, _) := do_req e c in
   Forall (fun d =>
     let g := if stack_quic (d_stack d) then effective (e_host e) (c_tls c) else default_sname (e_host e) t in
@@ -1207,7 +1304,7 @@ Lemma user_tls_governs_tcp_only e c t :
     (forall v, o = Use v -> acceptable_under g e = true) /\
     (o = Fail ECert -> acceptable_under g e = false)) ds.
 Proof.
-  intros U. pose proof (do_req_sound altsvc_only_unforced e c) as S. unfold req_sound in S.
+  intros RT U. pose proof (do_req_sound altsvc_only_unforced e c RT) as S. unfold req_sound in S.
   unfold do_req. destruct (do_req_gen altsvc_only_unforced e c) as [[o ds] c'].
   eapply Forall_impl; [|exact S]. intros d H. unfold dial_sound, settings_for, tcp_settings in H.
   rewrite U in H. exact H.
@@ -1243,7 +1340,7 @@ Qed.
 (* non-vacuity of the uniformity clause: the same settings, three forced versions, origin offering all three:
    accepted three times with the private root, refused three times with the wrong root *)
 Definition h3_env : env :=
-  mkEnv true (bs "localhost") (mkSrv [alpn_h2; alpn_h1] true false false 1%N [bs "localhost"] None).
+  mkEnv true (bs "localhost") (mkSrv [alpn_h2; alpn_h1] true false false 1%N [bs "localhost"] None) None.
 Lemma uniform_example :
   map (fun f => fst (run h3_env new_client [OAddRoot 1%N; OForce f; OReq])) [FH1; FH2; FH3] =
     [[ObsCfg; ObsCfg; ObsReq (Use V1) [mkDial S1 (bs "localhost") [] true]];
@@ -1343,13 +1440,13 @@ Proof.
   intros Hf. pose proof (forced_round_trip e c v Hf) as R. unfold round_trip_close, outcome_of in *.
   destruct (c_force c) eqn:F; cbn in Hf; inversion Hf; subst.
   - destruct (round_trip_gen true e c) as [[o ds] c1]. cbn [fst] in R.
-    destruct o as [[| |]| |]; try discriminate; cbn [fst]; try exact R; destruct ds as [|d ds]; try exact R;
-      destruct (d_stack d); try exact R; discriminate.
+    destruct o as [[| |]| |]; try discriminate; cbn [fst]; try exact R;
+      destruct (last_stack ds) as [[| | |]|]; try exact R; discriminate.
   - pose proof (own_h2_conn_outcome e c) as O. destruct (own_h2_conn e c) as [o ds]. cbn [fst] in *.
     destruct O as [->|[er ->]]; [reflexivity | exact I].
   - destruct (round_trip_gen true e c) as [[o ds] c1]. cbn [fst] in R.
-    destruct o as [[| |]| |]; try discriminate; cbn [fst]; try exact R; destruct ds as [|d ds]; try exact R;
-      destruct (d_stack d); try exact R; discriminate.
+    destruct o as [[| |]| |]; try discriminate; cbn [fst]; try exact R;
+      destruct (last_stack ds) as [[| | |]|]; try exact R; discriminate.
 Qed.
 
 Lemma forced_close_version_or_fail e c v :
@@ -1373,8 +1470,7 @@ Proof.
          destruct O as [->|[er ->]]; discriminate);
     destruct (round_trip_gen g e c) as [[o ds] c1]; cbn [fst] in R;
     destruct o as [[| |]| |]; cbn [fst]; try discriminate; try exact R;
-    (destruct ds as [|d ds]; [discriminate|]);
-    (destruct (d_stack d); try discriminate);
+    (destruct (last_stack ds) as [[| | |]|]; try discriminate);
     pose proof (own_h2_conn_outcome e c1) as O; destruct (own_h2_conn e c1) as [o2 ds2]; cbn [fst] in *;
     destruct O as [->|[er ->]]; discriminate.
 Qed.
@@ -1394,3 +1490,208 @@ Proof.
   pose proof (rt_h2_dial_sound e (with_t2 false c)) as S.
   destruct (rt_h2_dial e (with_t2 false c)) as [[o ds] c']. exact S.
 Qed.
+
+(* ---------- the route through a CONNECT proxy (round 4) ---------- *)
+(* what governs the two handshakes of a connection made through the proxy: the first hop (https:// proxy) is
+   handshaken with the PROXY's name under the client's settings (through DialTLSContext when the caller set one);
+   the handshake inside the tunnel with the ORIGIN's name under the client's settings (or the TLSHandshakeContext
+   hook's) - DialTLSContext is not consulted for it *)
+Definition origin_cfg_via_proxy (e : env) (c : client) : tlscfg :=
+  match c_uhs c with Some t => default_sname (e_host e) t | None => effective (e_host e) (c_tls c) end.
+Definition proxy_cfg (px : proxy) (c : client) : tlscfg :=
+  match c_udial c with Some t => default_sname (p_host px) t | None => effective (p_host px) (c_tls c) end.
+Definition acceptable_proxy (px : proxy) (c : client) : bool :=
+  verify_ok (proxy_cfg px c) (proxy_srv px) && clientcert_ok (proxy_cfg px c) (proxy_srv px).
+
+Definition proxy_dial_ok (px : proxy) (e : env) (c : client) (o : outcome) (d : dial) : Prop :=
+  match d_stack d with
+  | S1 => d_sni d = t_sname (origin_cfg_via_proxy e c) /\
+          (forall v, o = Use v -> acceptable_under (origin_cfg_via_proxy e c) e = true)
+  | SP => d_sni d = t_sname (proxy_cfg px c) /\ (forall v, o = Use v -> acceptable_proxy px c = true)
+  | _ => True
+  end.
+Definition proxy_cert_clause (px : proxy) (e : env) (c : client) (o : outcome) (ds : list dial) : Prop :=
+  o = Fail ECert ->
+  match last_stack ds with
+  | Some S1 => acceptable_under (origin_cfg_via_proxy e c) e = false
+  | Some SP => acceptable_proxy px c = false
+  | _ => True
+  end.
+Definition proxy_sound (px : proxy) (e : env) (c : client) (r : res) : Prop :=
+  let '(o, ds, _) := r in Forall (proxy_dial_ok px e c o) ds /\ proxy_cert_clause px e c o ds.
+
+Lemma rt_h2_dial_stack e c : Forall (fun d => d_stack d = S2) (snd (fst (rt_h2_dial e c))).
+Proof.
+  unfold rt_h2_dial.
+  repeat match goal with
+         | |- context [if ?b then _ else _] => destruct b
+         | |- context [match ?x with _ => _ end] => destruct x
+         end; cbn [fst snd]; repeat constructor.
+Qed.
+
+Lemma rt_h3_stack oc e c r : rt_h3 oc e c = Some r -> Forall (fun d => d_stack d = S3) (snd (fst r)).
+Proof.
+  assert (F : forall c', Forall (fun d => d_stack d = S3) (snd (fst (rt_h3_fresh e c')))).
+  { intros c'. unfold rt_h3_fresh, h3_dial. destruct (s_h3 (e_srv e)).
+    - destruct (handshake _ _ _) as [p|er]; [repeat constructor|]. destruct er; cbn; repeat constructor.
+    - cbn. constructor. }
+  unfold rt_h3. destruct (negb (e_https e)); [intros H; inversion H; constructor|].
+  destruct (c_t3 c); destruct oc; intros H; inversion H; try constructor; apply F.
+Qed.
+
+Lemma stack_sound_S2 px e c o ds :
+  Forall (fun d => d_stack d = S2) ds -> Forall (proxy_dial_ok px e c o) ds /\ proxy_cert_clause px e c o ds.
+Proof.
+  intros F. split.
+  - eapply Forall_impl; [|exact F]. intros d H. unfold proxy_dial_ok. rewrite H. exact I.
+  - intros _. unfold last_stack. destruct (rev ds) as [|d r] eqn:R; [exact I|].
+    assert (In d ds) by (apply in_rev; rewrite R; left; reflexivity).
+    rewrite Forall_forall in F. rewrite (F d H). exact I.
+Qed.
+
+Lemma stack_sound_S3 px e c o ds :
+  Forall (fun d => d_stack d = S3) ds -> Forall (proxy_dial_ok px e c o) ds /\ proxy_cert_clause px e c o ds.
+Proof.
+  intros F. split.
+  - eapply Forall_impl; [|exact F]. intros d H. unfold proxy_dial_ok. rewrite H. exact I.
+  - intros _. unfold last_stack. destruct (rev ds) as [|d r] eqn:R; [exact I|].
+    assert (In d ds) by (apply in_rev; rewrite R; left; reflexivity).
+    rewrite Forall_forall in F. rewrite (F d H). exact I.
+Qed.
+
+Lemma last_stack_snoc ds d : last_stack (ds ++ [d]) = Some (d_stack d).
+Proof. unfold last_stack. rewrite rev_unit. reflexivity. Qed.
+
+Lemma sec_origin_via_proxy oh e c :
+  sec (match c_uhs c with Some t => default_sname (e_host e) t | None => tls_view S1 oh (e_host e) (c_tls c) end) =
+  sec (origin_cfg_via_proxy e c).
+Proof. unfold origin_cfg_via_proxy. destruct (c_uhs c); [reflexivity | apply tls_view_sec]. Qed.
+
+Lemma sec_proxy_cfg oh px c :
+  sec (match c_udial c with Some t => default_sname (p_host px) t | None => tls_view SP oh (p_host px) (c_tls c) end) =
+  sec (proxy_cfg px c).
+Proof. unfold proxy_cfg. destruct (c_udial c); [reflexivity | apply tls_view_sec]. Qed.
+
+Lemma handshake_ok_srv protos cfg cfg' srv p :
+  sec cfg = sec cfg' -> handshake protos cfg srv = HsOk p -> verify_ok cfg' srv && clientcert_ok cfg' srv = true.
+Proof.
+  unfold handshake. intros S H.
+  rewrite (verify_ok_sec _ _ _ S), (clientcert_ok_sec _ _ _ S) in H.
+  destruct (negotiate protos _); try discriminate;
+    destruct (verify_ok _ _); try discriminate; destruct (clientcert_ok _ _); try discriminate; reflexivity.
+Qed.
+
+Lemma handshake_cert_srv protos cfg cfg' srv :
+  sec cfg = sec cfg' -> handshake protos cfg srv = HsFail ECert -> verify_ok cfg' srv && clientcert_ok cfg' srv = false.
+Proof.
+  unfold handshake. intros S H.
+  rewrite (verify_ok_sec _ _ _ S), (clientcert_ok_sec _ _ _ S) in H.
+  destruct (negotiate protos _); try discriminate;
+    destruct (verify_ok _ _); try discriminate; destruct (clientcert_ok _ _); try discriminate; reflexivity.
+Qed.
+
+Lemma rt_conn_proxy_sound px e c : proxy_sound px e c (rt_conn_proxy px e c).
+Proof.
+  unfold proxy_sound, rt_conn_proxy.
+  set (oh := match c_force c with FH1 => true | _ => false end).
+  destruct (negb oh && c_alti c).
+  { destruct (c_t2 c).
+    - split; [constructor | intros _; exact I].
+    - pose proof (rt_h2_dial_stack e c) as F. destruct (rt_h2_dial e c) as [[o ds] c']. cbn [fst snd] in F.
+      apply stack_sound_S2, F. }
+  destruct (if oh then c_idle1 c else c_idle c); [split; [constructor | intros _; exact I]|].
+  set (pcfg := match c_udial c with Some t => default_sname (p_host px) t | None => tls_view SP oh (p_host px) (c_tls c) end).
+  set (cfg := match c_uhs c with Some t => default_sname (e_host e) t | None => tls_view S1 oh (e_host e) (c_tls c) end).
+  pose proof (sec_proxy_cfg oh px c) as SP'. fold pcfg in SP'.
+  pose proof (sec_origin_via_proxy oh e c) as SO. fold cfg in SO.
+  assert (TAIL : forall pd,
+     (forall o, Forall (proxy_dial_ok px e c o) pd) ->
+     let r := match handshake (s_alpn (e_srv e)) cfg (e_srv e) with
+       | HsFail er => (Fail er, pd ++ [mk_dial S1 cfg (handshake (s_alpn (e_srv e)) cfg (e_srv e))], c)
+       | HsOk p =>
+           if opt_bytes_eqb p (Some alpn_h2) then
+             if oh then (Fail EProto, pd ++ [mk_dial S1 cfg (handshake (s_alpn (e_srv e)) cfg (e_srv e))], c)
+             else (Use V2, pd ++ [mk_dial S1 cfg (handshake (s_alpn (e_srv e)) cfg (e_srv e))], with_alti true (with_t2 true c))
+           else (Use V1, pd ++ [mk_dial S1 cfg (handshake (s_alpn (e_srv e)) cfg (e_srv e))],
+                 if oh then with_idle (c_idle c) true c else with_idle true (c_idle1 c) c)
+       end in
+     let '(o, ds, _) := r in Forall (proxy_dial_ok px e c o) ds /\ proxy_cert_clause px e c o ds).
+  { intros pd PD. cbn zeta.
+    assert (SNI : d_sni (mk_dial S1 cfg (handshake (s_alpn (e_srv e)) cfg (e_srv e))) = t_sname (origin_cfg_via_proxy e c))
+      by (unfold mk_dial; cbn [d_sni]; apply sec_sname, SO).
+    destruct (handshake (s_alpn (e_srv e)) cfg (e_srv e)) as [p|er] eqn:H.
+    - pose proof (handshake_ok_sec _ _ _ _ _ SO H) as A.
+      destruct (opt_bytes_eqb p (Some alpn_h2)); [destruct oh|];
+        (split; [apply Forall_app; split; [apply PD | constructor; [|constructor]];
+                 unfold proxy_dial_ok; cbn [mk_dial d_stack]; split; [exact SNI | intros v _; exact A]
+                | intros Hc; inversion Hc]).
+    - split.
+      + apply Forall_app; split; [apply PD | constructor; [|constructor]].
+        unfold proxy_dial_ok; cbn [mk_dial d_stack]. split; [exact SNI | intros v Hv; discriminate].
+      + intros Hc. rewrite last_stack_snoc. cbn [mk_dial d_stack]. inversion Hc; subst.
+        eapply handshake_cert_sec; eauto. }
+  destruct (p_tls px).
+  - destruct (handshake (s_alpn (proxy_srv px)) pcfg (proxy_srv px)) as [pp|er] eqn:HP.
+    + pose proof (handshake_ok_srv _ _ _ _ _ SP' HP) as PA.
+      apply (TAIL [mk_dial SP pcfg (HsOk pp)]). intros o. constructor; [|constructor].
+      unfold proxy_dial_ok; cbn [mk_dial d_stack d_sni]. split; [apply sec_sname, SP' | intros v _; exact PA].
+    + split.
+      * constructor; [|constructor]. unfold proxy_dial_ok; cbn [mk_dial d_stack d_sni].
+        split; [apply sec_sname, SP' | intros v Hv; discriminate].
+      * intros Hc. cbn. inversion Hc; subst. unfold acceptable_proxy. eapply handshake_cert_srv; eauto.
+  - apply (TAIL []). intros o. constructor.
+Qed.
+
+Lemma rt_h3_proxy_sound px oc e c r : rt_h3 oc e c = Some r -> proxy_sound px e c r.
+Proof.
+  intros E. pose proof (rt_h3_stack _ _ _ _ E) as F. destruct r as [[o ds] c']. cbn [fst snd] in F.
+  apply stack_sound_S3, F.
+Qed.
+
+Lemma round_trip_proxy_sound g e c px : route e c = Some px -> proxy_sound px e c (round_trip_gen g e c).
+Proof.
+  intros RT.
+  assert (HC : proxy_sound px e c (rt_conn e c)) by (unfold rt_conn; rewrite RT; apply rt_conn_proxy_sound).
+  assert (NIL : forall o c', proxy_sound px e c (o, [], c')) by (intros; split; [constructor | intros _; exact I]).
+  unfold round_trip_gen.
+  destruct (if g && negb match c_force c with FNone => true | _ => false end then None else check_altsvc e c) eqn:A.
+  - destruct (g && negb match c_force c with FNone => true | _ => false end); [discriminate|].
+    unfold check_altsvc in A. destruct (negb (c_h3 c)); [discriminate|].
+    destruct (c_alt c) as [|[|]|]; try discriminate.
+    + destruct (rt_h3 false e c) as [[[o ds] c']|] eqn:E; [|discriminate].
+      apply (rt_h3_proxy_sound px) in E. unfold proxy_sound in *.
+      destruct o as [v| |er]; inversion A; subst; exact E.
+    + eapply rt_h3_proxy_sound; eauto.
+  - destruct (c_force c).
+    + destruct (e_https e && negb false); [|exact HC].
+      destruct (c_t2 c); [apply NIL|]. destruct (c_h3 c); [|exact HC].
+      destruct (rt_h3 true e c) eqn:E; [eapply rt_h3_proxy_sound; eauto | exact HC].
+    + destruct (e_https e && negb true); [|exact HC].
+      destruct (c_t2 c); [apply NIL|]. destruct (c_h3 c); [|exact HC].
+      destruct (rt_h3 true e c) eqn:E; [eapply rt_h3_proxy_sound; eauto | exact HC].
+    + pose proof (rt_h2_dial_stack e c) as F. destruct (rt_h2_dial e c) as [[o ds] c']. cbn [fst snd] in F.
+      apply stack_sound_S2, F.
+    + destruct (rt_h3 false e c) eqn:E; [eapply rt_h3_proxy_sound; eauto | apply NIL].
+Qed.
+
+Lemma after_response_proxy_sound px e c r : proxy_sound px e c r -> proxy_sound px e c (after_response e r).
+Proof.
+  destruct r as [[o ds] c']. unfold after_response.
+  destruct o as [[| |]| |]; try (intros H; exact H);
+    (destruct (c_h3 c' && s_altsvc (e_srv e)); [destruct (c_alt c')|]; intros H; exact H).
+Qed.
+
+(* the client is told to use the proxy: whatever the dispatch does with the request (the http2 transport's own
+   dials and HTTP/3 do not go through the proxy), every handshake with the ORIGIN inside a tunnel carries the
+   origin's name and the client's settings (a success implies the origin is acceptable under them, a certificate
+   failure of the last handshake that it is not), and every handshake with the proxy the proxy's name *)
+Lemma do_req_proxy_sound e c px : route e c = Some px -> proxy_sound px e c (do_req e c).
+Proof.
+  intros RT. unfold do_req, do_req_gen. apply after_response_proxy_sound, round_trip_proxy_sound, RT.
+Qed.
+
+(* a tunnel (or any other connection) is reused for its own authority only: with the proxy in use too, what the
+   client does at either authority of a two-authority sequence is its own one-authority run (run2_proj holds for
+   every environment, proxies included); the idle list is keyed by the target as well - generated fact *)
+Lemma gen_key_keeps_target : pool_key_keeps_https_target = true.
+Proof. reflexivity. Qed.
